@@ -6,13 +6,15 @@
     Node.removeChild            -> `removeChild`     (Childless.removeChild -> first guard)
     Node.appendChild            -> `appendChild`     (Childless.appendChild -> first guard)
     _append_child               -> `appendRaw`
-    Node.insertBefore           -> `insertBefore`    (Childless.insertBefore -> first guard)
+    Node.insertBefore           -> `insertBefore`    (Childless.insertBefore -> first guard); its statement
+                                   groups are named `checkRef`, `detachIfAttached`, `insertAtRef`, `linkPrev`
     Element.addElement          -> `addElement`
     Element.addText / addCDATA  -> `addText` / `addCDATA`
     Element.setAttrNS           -> `setAttrNS`
     Element.setAttribute        -> `setAttribute`
     Element.removeAttribute     -> `removeAttribute`
-    Element.__init__            -> `construct`  (text=, cdata=, attribute loops, required check, parent= last)
+    Element.__init__            -> `construct`  (`ctorText`, `ctorCData`, attribute loops `applyAttrs`,
+                                   `checkRequired`, and `ctorAttach`: parent= last)
 
   A node is a small natural number chosen by the harness; the heap maps every id to a
   record (ids never used hold the blank record, which behaves like a fresh detached
@@ -408,22 +410,31 @@ def checkRequired (e : Id) : List Nat → M Unit
     if (← rd fun h => lookupAttr r (h e).attrs) = none then raise .AttributeError
     checkRequired e rs
 
+/-- `if text is not None: self.addText(text)`; the pair is (id of the Text node, `text != ''`) -/
+def ctorText (self : Id) (allowsText : Bool) : Option (Id × Bool) → M Unit
+  | some (t, nonempty) => addText self t allowsText nonempty
+  | none => pure ()
+
+/-- `if cdata is not None: self.addCDATA(cdata)` -/
+def ctorCData (self : Id) (allowsText : Bool) : Option Id → M Unit
+  | some c => addCDATA self c allowsText
+  | none => pure ()
+
+/-- `if parent is not None: parent.addElement(self)`; the pair is (parent, grammar verdict) -/
+def ctorAttach (self : Id) : Option (Id × Bool) → M Unit
+  | some (p, allowed) => addElement p self allowed
+  | none => pure ()
+
 /-- `Element.__init__` as called by a factory (`P(text=…, stylename=…, parent=…)`) -/
 def construct (self : Id) (qn : Nat) (allowsText : Bool)
     (text : Option (Id × Bool)) (cdata : Option Id)
     (attrs : List AttrArg) (required : List Nat) (parent : Option (Id × Bool)) : M Unit := do
   initNode self .elem qn                              -- childNodes = [], attributes = {}, no parent
-  match text with
-  | some (t, nonempty) => addText self t allowsText nonempty     -- if text is not None: self.addText(text)
-  | none => pure ()
-  match cdata with
-  | some c => addCDATA self c allowsText              -- if cdata is not None: self.addCDATA(cdata)
-  | none => pure ()
+  ctorText self allowsText text                       -- if text is not None: self.addText(text)
+  ctorCData self allowsText cdata                     -- if cdata is not None: self.addCDATA(cdata)
   applyAttrs self attrs                               -- the three attribute loops
   checkRequired self required                         -- "Required attribute missing"
-  match parent with
-  | some (p, allowed) => addElement p self allowed    -- if parent is not None: parent.addElement(self)
-  | none => pure ()
+  ctorAttach self parent                              -- the parent is attached last
 
 /-! ### the operations of an edit history -/
 
